@@ -154,7 +154,7 @@ Definition apply_padding1 (m : pmode) (d : direction) (lhs : list T) (n_rhs : na
   end.
 
 (* resize_array on a 1-d array.  [castable] is np.can_cast(pad_const, out.dtype). *)
-Definition resize1 (m : pmode) (d : direction) (c : T) (castable : bool)
+Definition resize1_core (m : pmode) (d : direction) (c : T) (castable : bool)
            (arr : list T) (n_out : nat) (off : Z) : outcome (list T) :=
   let n_arr := length arr in
   if pmode_eqb m PConstant && negb castable && (n_arr <? n_out)%nat then ValueErr
@@ -173,6 +173,12 @@ Definition resize1 (m : pmode) (d : direction) (c : T) (castable : bool)
       | Ok tmp => of_opt (assign_intersection out tmp off)
       end
     else of_opt (assign_intersection out arr off).
+
+(* the offset validation loop (Gen.Padding.offset_invalid) comes first *)
+Definition resize1 (m : pmode) (d : direction) (c : T) (castable : bool)
+           (arr : list T) (n_out : nat) (off : Z) : outcome (list T) :=
+  if offset_invalid (Z.of_nat (length arr)) (Z.of_nat n_out) off then ValueErr
+  else resize1_core m d c castable arr n_out off.
 
 (* ---------------- reference: the named rule as an index formula -------------
    [ext_ref m c x j] is the value at (signed) position j of the extension of x
